@@ -49,8 +49,17 @@ def build_engine(kind, rxs):
     raise ValueError(kind)
 
 
+def lengths(firsts, length):
+    """Samples per stream: the same for all, or ("end", extra): every stream ends at max(firsts) + extra."""
+    if isinstance(length, (tuple, list)):
+        last = max(firsts) + length[1]
+        return [last - f + 1 for f in firsts]
+    return [length] * len(firsts)
+
+
 def make_scenario(kind, firsts, length):
     n = len(firsts)
+    lens = lengths(firsts, length)
 
     def scenario(ch: Chooser) -> Observation:
         obs = Observation()
@@ -80,7 +89,7 @@ def make_scenario(kind, firsts, length):
             log = []
 
             def enabled():
-                ev = [("deliver", i) for i in range(n) if sent[i] < length]
+                ev = [("deliver", i) for i in range(n) if sent[i] < lens[i]]
                 if not started[0]:
                     ev.append(("start",))
                 return ev
@@ -130,7 +139,7 @@ def make_scenario(kind, firsts, length):
             viol = []
             C = obs.clauses
             lo = max(firsts)
-            hi = min(f + length - 1 for f in firsts)
+            hi = min(f + l - 1 for f, l in zip(firsts, lens))
             for T, dec in outputs:
                 C["value_computed_from_inputs_of_its_timestamp"] = C.get("value_computed_from_inputs_of_its_timestamp", 0) + 1
                 if dec is None or any(d != T for d in dec):
@@ -174,17 +183,22 @@ def run(tier: str, seed: int, workers: int):
 
     shards = []
     if tier == "quick":
-        plans = [("builder", 2, 3, 1), ("api", 2, 3, 0), ("3phase", 3, 2, 0), ("builder", 3, 2, 0)]
+        plans = [("builder", 2, 3, 1), ("api", 2, 3, 0), ("3phase", 3, 2, 0), ("builder", 3, 2, 0),
+                 # three streams starting on three different timestamps, all ending one step after the latest start
+                 ("builder", 3, ("end", 1), 0), ("3phase", 3, ("end", 0), 0)]
     else:
-        plans = [("builder", 2, 4, 2), ("api", 2, 4, 1), ("3phase", 3, 3, 1), ("builder", 3, 3, 1), ("api", 3, 2, 1)]
+        plans = [("builder", 2, 4, 2), ("api", 2, 4, 1), ("3phase", 3, 3, 1), ("builder", 3, 3, 1), ("api", 3, 2, 1),
+                 ("api", 3, ("end", 1), 1)]
     for kind, n, length, bound in plans:
         for firsts in itertools.product((0, 1, 2), repeat=n):
             if min(firsts) != 0:
                 continue  # shifting all streams together changes nothing
             if kind == "3phase" and len(firsts) != 3:
                 continue
-            if min(f + length - 1 for f in firsts) < max(firsts):
+            if min(f + l - 1 for f, l in zip(firsts, lengths(firsts, length))) < max(firsts):
                 continue  # no common timestamp
+            if isinstance(length, tuple) and len(set(firsts)) < 3:
+                continue  # the ("end", k) plans are about three distinct first timestamps
             shards.append((kind, firsts, length, bound))
     determinism_selfcheck(make_scenario("builder", (0, 1), 3))
     if seed:
@@ -194,7 +208,7 @@ def run(tier: str, seed: int, workers: int):
     acc = pmap_acc(shard, shards, workers)
     meta = {
         "rule": "formula = sum_i 100^i * stream_i with stream_i(t) = t; n = 2-3 input streams, per-stream first timestamp in {0,1,2}, "
-        "L = 2-4 samples per stream; every interleaving of per-stream deliveries (order kept) and of the consumer starting the "
+        "L = 2-4 samples per stream (or all streams ending one step after the latest start, for three distinct first timestamps); every interleaving of per-stream deliveries (order kept) and of the consumer starting the "
         "engine, injected at quiescence; delivery between two loop iterations as deviation (bound per plan); engines built with "
         "FormulaBuilder, with the composition API (leaf engines as separate tasks) and as FormulaEngine3Phase over three phase "
         "engines; non-trivial = streams start on different timestamps or the consumer starts late",
